@@ -104,6 +104,21 @@ pub fn oracle(s: &ProgScene<X>, t: &Trace) -> Vec<Violation> {
                 let Some(o) = an.op(c as u8, i as u16) else { continue };
                 let handled = an.exit_of_msg(0, id).is_some();
                 let entered = !an.enter_of_msg(0, id).is_empty();
+                // a call through an Addr is in the mailbox after the first poll of its future
+                // (the non-waiting path); a caller that then gives up has still submitted it
+                if let (Op::CallAbandon(H::Addr(_), _), Some(Res::Abandoned), Some(end), Some(fs)) = (op, o.res, o.end, first_stop_begin) {
+                    if end < fs {
+                        crate::check::oblige("drain-before-stop");
+                        if !handled {
+                            out.push(Violation {
+                                clause: "drain-before-stop",
+                                key: format!("C04/pre-stop-abandoned-call-lost/mailbox={mbn}"),
+                                detail: format!("call {id} was submitted (its caller gave up waiting for the answer afterwards) before any stop request was issued, but it was never handled"),
+                            });
+                        }
+                    }
+                    continue;
+                }
                 let is_call = matches!(op, Op::Call(..));
                 // (a) submitted (completed, accepted) before any stop request was issued
                 if let (Some(end), Some(fs)) = (o.end, first_stop_begin) {
@@ -328,6 +343,12 @@ fn plain_cases(tier: Tier) -> Vec<Case> {
                         v.push(make_case(&[p], &[sv], aw, mb, false, None));
                     }
                 }
+            }
+        }
+        // callers that give up after submitting: the message is in the mailbox all the same
+        for &sv in &stops {
+            for p in [vec![L::CallAbandon], vec![L::SendAddr, L::CallAbandon], vec![L::CallAbandon, L::CallAddr], vec![L::CallAbandon, L::CallAbandon]] {
+                v.push(make_case(&[p], &[sv], Awaiter::AwaitEarly, mb, false, None));
             }
         }
         // two stop requests racing with one or two submitters
